@@ -246,6 +246,10 @@ def ptOfElem (e : Elem) : C11.Pt :=
       | none => .off
     ⟨t, get as "smooth" == some "yes".toList⟩
 
+/-- the elements inside a contour (comments dropped) -/
+def contourElems (kids : List CItem) : List Elem :=
+  kids.filterMap fun k => match k with | .elem e => some e | .comment => none
+
 def contourCheck (ver : Nat) (attrs : Option (List Attr)) (kids : List CItem) : List String × Bool :=
   let own : List String × Bool :=
     match attrs with
@@ -254,7 +258,7 @@ def contourCheck (ver : Nat) (attrs : Option (List Attr)) (kids : List CItem) : 
         if a.1 = "identifier".toList then
           (if ver == 1 then (["v1-attr"], false) else valueCheck rd .ident a.2)
         else (["unknown-attr"], false))
-  let pts := kids.filterMap fun k => match k with | .elem e => some e | .comment => none
+  let pts := contourElems kids
   let perPoint := pts.map fun e => if e.name = sPoint then elemCheck rd ver e else (["unknown-element"], false)
   let seq := if pts.all (fun e => e.name = sPoint) ∧ !C11.legalB (pts.map ptOfElem) then ["contour"] else []
   merge (own :: (seq, false) :: perPoint)
